@@ -26,7 +26,12 @@ type C14Case struct {
 	// a tag string: 1 always nil, 2 nil for about half of the values and the value itself otherwise,
 	// 3 the zero value of the element's kind (the value itself for nil and containers)
 	Res int `json:"res,omitempty"`
+	// NonFinite: some float elements are +Inf, -Inf or NaN (ordinary float64 values for every view)
+	NonFinite bool `json:"nonfinite,omitempty"`
 }
+
+// nonFinite is set for the duration of one case; the processes are single-threaded per case.
+var nonFinite bool
 
 // mapResult is the callback result of the second Map pass.
 func mapResult(mode int, x any) any {
@@ -74,6 +79,7 @@ func GenC14(t *rapid.T) *C14Case {
 	if drawBool(t, "respass") {
 		c.Res = drawInt(t, 1, 3, "res")
 	}
+	c.NonFinite = oneIn(t, 4, "nonfinite")
 	for i := 0; i < n; i++ {
 		c.Kinds = append(c.Kinds, alphabet[drawIdx(t, nk, "k")])
 	}
@@ -110,6 +116,16 @@ func elemValueZ(k Kind, i int, zero bool) any {
 	case KInt:
 		return 100 + i
 	case KFloat:
+		if nonFinite {
+			switch i % 5 {
+			case 1:
+				return math.Inf(1)
+			case 2:
+				return math.Inf(-1)
+			case 3:
+				return math.NaN()
+			}
+		}
 		return float64(i) + 0.5
 	case KString:
 		return fmt.Sprintf("s%d", i)
@@ -477,7 +493,7 @@ func verifyListViews(l at.List, vals []any, kinds []Kind, predSel int, resMode i
 	for _, x := range sub[KFloat] {
 		wantF = wantF*0.5 + x.(float64)
 	}
-	if gotF != wantF {
+	if gotF != wantF && !(gotF != gotF && wantF != wantF) {
 		return errf("ReduceFloats = %v, expected %v", gotF, wantF)
 	}
 	// untyped Reduce with a nil initial value: the callback still sees every element, the first included
@@ -534,6 +550,53 @@ func verifyListViews(l at.List, vals []any, kinds []Kind, predSel int, resMode i
 				if g := got.Get(i); !ifaceEq(g, exp) || got.TypeOf(i) != typeOfAny(exp) {
 					return errf("%s result[%d] = %s, the callback returned %s", what, i, showAny(g), showAny(exp))
 				}
+			}
+		}
+	}
+	// views used from inside a callback of another view of the same list: each one still sees every
+	// element of its kind once and in order
+	if n > 0 {
+		at0 := predSel % n
+		var outer, innerAll, innerS, innerI, innerF []any
+		step := 0
+		l.ForEach(func(i int, x any) {
+			outer = append(outer, x)
+			if step == at0 {
+				l.ForEachValue(func(y any) { innerAll = append(innerAll, y) })
+				l.ForEachString(func(y string) { innerS = append(innerS, y) })
+				l.ForEachInt(func(y int) { innerI = append(innerI, y) })
+				l.ForEachFloat(func(y float64) { innerF = append(innerF, y) })
+			}
+			step++
+		})
+		for _, chk := range []struct {
+			what      string
+			got, want []any
+		}{{"ForEach (with other views running inside one of its callbacks)", outer, vals}, {"ForEachValue called inside a ForEach callback", innerAll, vals},
+			{"ForEachString called inside a ForEach callback", innerS, sub[KString]}, {"ForEachInt called inside a ForEach callback", innerI, sub[KInt]},
+			{"ForEachFloat called inside a ForEach callback", innerF, sub[KFloat]}} {
+			if err := idSame(chk.what, chk.got, chk.want); err != nil {
+				return err
+			}
+		}
+		var outerV, innerO, innerL []any
+		step = 0
+		l.ForEachValue(func(x any) {
+			outerV = append(outerV, x)
+			if step == at0 {
+				l.ForEachObject(func(y at.Object) { innerO = append(innerO, y) })
+				l.ForEachList(func(y at.List) { innerL = append(innerL, y) })
+				l.ForEach(func(int, any) {})
+			}
+			step++
+		})
+		for _, chk := range []struct {
+			what      string
+			got, want []any
+		}{{"ForEachValue (with other views running inside one of its callbacks)", outerV, vals}, {"ForEachObject called inside a ForEachValue callback", innerO, sub[KObject]},
+			{"ForEachList called inside a ForEachValue callback", innerL, sub[KList]}} {
+			if err := idSame(chk.what, chk.got, chk.want); err != nil {
+				return err
 			}
 		}
 	}
@@ -781,6 +844,8 @@ func verifyObjectViews(o at.Object, vals map[string]any, byKind map[Kind]map[str
 var unclassifiedOnce bool
 
 func CheckC14(c *C14Case, st *Stats) error {
+	nonFinite = c.NonFinite
+	defer func() { nonFinite = false }()
 	if !unclassifiedOnce {
 		unclassifiedOnce = true
 		unclassifiedViews(st)
@@ -810,7 +875,7 @@ func CheckC14(c *C14Case, st *Stats) error {
 
 func init() {
 	Register("C14",
-		"lists and objects of 0-16 (occasionally 33-130) elements, built through drawn construction routes (Add, NewList, NewListFrom, NewListOf+Replace, Concat, SubList, typed-slice origin + Insert, grow-and-shrink; objects optionally from a map[string]int), whose kind sequence is drawn from an alphabet of 1-4 of the seven kinds with repetition (several elements of one kind interleaved with others, kinds absent, empty container); element values are pairwise distinct and encode their position (the first element of each scalar kind may be the zero value). For every kind X of {object, list, string, bool, int, float}: XSlice, ForEachX (callback log), MapXs (injective tag; in half of the cases a second pass whose callback returns nil for every / about half of the values, the value itself, or the zero value of the kind - each result must be stored as returned, nil included), FilterXs (predicates all/none/alternate/by value; identity for containers), ReduceXs with non-commutative folds, AllXs and AllNumeric, plus the untyped ForEach/ForEachValue/Map/MapValues/Filter/Reduce (index and value, in order, once); for objects ForEach/ForEachValue/ForEachX as multisets and Map/MapValues/MapXs storing under the same key and nothing else. The method table is compared with the interface by reflection (unknown view methods are reported as unclassified). Non-trivial = some kind occurs at least twice with an element of another kind between. Distinct = distinct FNV-64a hash of the case JSON.",
+		"lists and objects of 0-16 (occasionally 33-130) elements, built through drawn construction routes (Add, NewList, NewListFrom, NewListOf+Replace, Concat, SubList, typed-slice origin + Insert, grow-and-shrink; objects optionally from a map[string]int), whose kind sequence is drawn from an alphabet of 1-4 of the seven kinds with repetition (several elements of one kind interleaved with others, kinds absent, empty container); element values are pairwise distinct and encode their position (the first element of each scalar kind may be the zero value; in one case of four some floats are +Inf, -Inf or NaN). Views are also used from inside a callback of another view of the same list. For every kind X of {object, list, string, bool, int, float}: XSlice, ForEachX (callback log), MapXs (injective tag; in half of the cases a second pass whose callback returns nil for every / about half of the values, the value itself, or the zero value of the kind - each result must be stored as returned, nil included), FilterXs (predicates all/none/alternate/by value; identity for containers), ReduceXs with non-commutative folds, AllXs and AllNumeric, plus the untyped ForEach/ForEachValue/Map/MapValues/Filter/Reduce (index and value, in order, once); for objects ForEach/ForEachValue/ForEachX as multisets and Map/MapValues/MapXs storing under the same key and nothing else. The method table is compared with the interface by reflection (unknown view methods are reported as unclassified). Non-trivial = some kind occurs at least twice with an element of another kind between. Distinct = distinct FNV-64a hash of the case JSON.",
 		GenC14, CheckC14)
 }
 
